@@ -18,7 +18,8 @@ RULE = ("every grammatical signature over {pos-only, pos-or-kw, *args, kw-only, 
         "parameters by keyword, 0-2 surplus keywords sorting before / after the parameter names, keywords repeating positional-only names (first, last, both; 'self' for methods incl. 'def f(self, /, ...)'), methods also called with the bound instance itself as an argument); "
         "a case is one (signature, call shape, ignore list) that the interpreter accepts; "
         "distinct_nontrivial counts distinct (signature, call shape) pairs accepted by Python with "
-        "at least one argument or default bound")
+        "at least one argument or default bound"
+        " Every function with defaults is bound again after its defaults were replaced by tuples, then by values whose == / != have no truth value / are always true / never true.")
 ASSUMPTIONS = [
     "what the real call of the same function binds (its locals()) is the definition of 'as Python binds'; a call raising TypeError is outside the domain",
     "functions are real defs compiled from generated source (exec), not mocks",
